@@ -39,6 +39,7 @@ type InitSpec struct {
 	AppState  json.RawMessage `json:"app_state"`
 	CustomPos bool            `json:"custom_pos"`
 	PosFirst  bool            `json:"pos_first,omitempty"`
+	Defect    string          `json:"defect,omitempty"` // harness ground truth: the genesis is deliberately inconsistent
 	Pruning   *[2]int64       `json:"pruning,omitempty"` // keepRecent, keepEvery; nil = zero value of the multistore
 	MaxGas    int64           `json:"max_gas"`
 	// SecpValidators: the consensus parameters also allow secp256k1 validator keys
